@@ -78,7 +78,10 @@ TrQuiet ==
     /\ count = E.count /\ last = E.last /\ Len(fires) = E.pushes
     /\ Consume /\ UNCHANGED <<vars, open>>
 
-TraceNext == TrTick \/ TrArrive \/ TrCanStart \/ TrInternal \/ TrCanEnd \/ TrProcess \/ TrExit \/ TrQuiet
+(* the service sent a new configuration with this tracepoint unchanged in it (the driver does so between two hits) *)
+TrReinstall == Live /\ E.ev = "Reinstall" /\ Reinstall /\ Consume /\ UNCHANGED open
+
+TraceNext == TrReinstall \/ TrTick \/ TrArrive \/ TrCanStart \/ TrInternal \/ TrCanEnd \/ TrProcess \/ TrExit \/ TrQuiet
 
 INSTANCE TraceCommon
 =============================================================================
